@@ -101,28 +101,33 @@ func boundedFile(name, content string) string {
 	return p
 }
 
-// BoundedIncludeExcept (C06): the input is a sequence of lines, each marked F (include file)
-// or X (the one exclude file). `##!> include-except F X` must contribute exactly the entries
-// of F (expanded with F's definitions) that are not an entry of X, X being expanded with F's
-// definitions first and with its own definitions only for names F does not define; in F's
-// order; the same in every one of 4 fresh runs. Inputs in which F holds the same expanded
-// entry twice are outside the domain of this stand-in (skipped).
-//@ directive[C06] bounded BoundedIncludeExcept quick=4 thorough=5 tokens="F##!> define s A\n" "Fu{{s}}v\n" "Fw\n" "Fu{{t}}v\n" "X##!> define s B\n" "X##!> define t A\n" "Xu{{s}}v\n" "XuAv\n" "Xw\n" "Xu{{t}}v\n"
+// BoundedIncludeExcept (C06): the input is a sequence of lines, each marked F (include file),
+// X or Y (two exclude files). `##!> include-except F X Y` (and `F Y X`) must contribute exactly
+// the entries of F (expanded with F's definitions) that are an entry of neither X nor Y, each
+// exclude file being expanded with F's definitions first and with its own definitions only for
+// names F does not define (never with the other exclude file's); in F's order; the same in
+// every one of 4 fresh runs (two per order of the exclude files). Inputs in which F holds the
+// same expanded entry twice are outside the domain of this stand-in (skipped).
+//@ directive[C06] bounded BoundedIncludeExcept quick=4 thorough=5 tokens="F##!> define s A\n" "Fu{{s}}v\n" "Fw\n" "Fu{{t}}v\n" "X##!> define s B\n" "X##!> define t A\n" "Xu{{s}}v\n" "Xw\n" "Yu{{t}}v\n" "YuAv\n"
 
 func BoundedIncludeExcept(in string) string {
 	zerolog.SetGlobalLevel(zerolog.Disabled)
-	var fText, xText strings.Builder
+	var fText, xText, yText strings.Builder
 	defsF := map[string]string{}
 	defsX := map[string]string{}
-	var entF, entX []string
+	defsY := map[string]string{}
+	var entF, entX, entY []string
 	for _, l := range strings.Split(in, "\n") {
 		if l == "" {
 			continue
 		}
 		which, l := l[0], l[1:]
 		defs, text, ents := defsF, &fText, &entF
-		if which == 'X' {
+		switch which {
+		case 'X':
 			defs, text, ents = defsX, &xText, &entX
+		case 'Y':
+			defs, text, ents = defsY, &yText, &entY
 		}
 		text.WriteString(l + "\n")
 		if strings.HasPrefix(l, "##!> define ") {
@@ -134,8 +139,9 @@ func BoundedIncludeExcept(in string) string {
 			*ents = append(*ents, l)
 		}
 	}
-	for n, v := range defsF { // X is parsed with F's definitions
+	for n, v := range defsF { // every exclude file is parsed with F's definitions
 		defsX[n] = v
+		defsY[n] = v
 	}
 	subst := func(u string, defs map[string]string) string {
 		for n, v := range defs {
@@ -146,6 +152,9 @@ func BoundedIncludeExcept(in string) string {
 	excluded := map[string]bool{}
 	for _, e := range entX {
 		excluded[subst(e, defsX)] = true
+	}
+	for _, e := range entY {
+		excluded[subst(e, defsY)] = true
 	}
 	seen := map[string]bool{}
 	var want strings.Builder
@@ -161,12 +170,17 @@ func BoundedIncludeExcept(in string) string {
 	}
 	f := boundedFile("f.ra", fText.String())
 	x := boundedFile("x.ra", xText.String())
+	y := boundedFile("y.ra", yText.String())
 	for run := 0; run < 4; run++ {
+		line := "##!> include-except " + f + " " + x + " " + y + "\n"
+		if run%2 == 1 {
+			line = "##!> include-except " + f + " " + y + " " + x + "\n"
+		}
 		ctx := processors.NewContext(context.New("/nonexistent-root", "toolchain.yaml"))
-		p := NewParser(ctx, strings.NewReader("##!> include-except "+f+" "+x+"\n"))
+		p := NewParser(ctx, strings.NewReader(line))
 		out, _ := p.Parse(false)
 		if out.String() != want.String() {
-			return "include-except gives " + strconvQuote(out.String()) + ", the entries of F in no X are " + strconvQuote(want.String()) + " (F: " + strconvQuote(fText.String()) + ", X: " + strconvQuote(xText.String()) + ")"
+			return "include-except (exclude files in order " + map[bool]string{false: "X Y", true: "Y X"}[run%2 == 1] + ") gives " + strconvQuote(out.String()) + ", the entries of F in no exclude file are " + strconvQuote(want.String()) + " (F: " + strconvQuote(fText.String()) + ", X: " + strconvQuote(xText.String()) + ", Y: " + strconvQuote(yText.String()) + ")"
 		}
 	}
 	return ""
